@@ -424,6 +424,7 @@ def run_one(tape):
           th = threading.Thread(target=bodies.operator, args=(ctx_a, test_a, gate, 1, 0), name='operator')
           th.daemon = True
           th.start()
+          op_thread = th
 
           def fire(frame):
             sim.event('trigger')
@@ -439,6 +440,10 @@ def run_one(tape):
         if abort and not gate.opened:
           ctx_a.ev('abort_cancelled')
           # the operator thread stays parked on its gate; it is a daemon of this simulation
+        elif abort:
+          # its abort call (and the framework messages it logs) may still be in flight: "later
+          # logging" below means logging that starts after everything of the runs has ended
+          op_thread.join()
         # after the runs
         post['record_handlers'] = sum(1 for h in htf_logger.handlers if isinstance(h, logs.RecordHandler))
         post['handlers'] = len(htf_logger.handlers)
